@@ -508,6 +508,11 @@ def _cf_crypto(mds):
     return _CF_CRYPTO["real"]
 
 
+class _NoLogger:
+    """stands for the QuicConnection in the unbound call: only self._quic_logger is read (qlog is off, C20's subject)"""
+    _quic_logger = None
+
+
 def cf_run(case):
     """The closing round of datagrams_to_send on a real QuicPacketBuilder with the real (unbound)
     QuicConnection._write_connection_close_frame.  -> (outcome code, datagram lengths, [(ptype, sent_bytes)], exception)"""
@@ -526,7 +531,7 @@ def cf_run(case):
         for pt in case["ptypes"]:
             try:
                 b.start_packet(QuicPacketType(pt), crypto)
-                QuicConnection._write_connection_close_frame(None, builder=b, epoch=epoch[pt], error_code=case["code"],
+                QuicConnection._write_connection_close_frame(_NoLogger(), builder=b, epoch=epoch[pt], error_code=case["code"],
                                                              frame_type=case["ftype"], reason_phrase=case["reason"])
             except QuicPacketBuilderStop:
                 pass
@@ -536,7 +541,7 @@ def cf_run(case):
         code = (2 if isinstance(e, BufferWriteError) else 3 if isinstance(e, AssertionError)
                 else 6 if isinstance(e, CryptoError) else 5 if isinstance(e, ValueError) else 9)
         return code, [], [], e
-    return 0, [len(d) for d in datagrams], [(int(p.packet_type), p.sent_bytes) for p in packets], None
+    return 0, [len(d) for d in datagrams], [(p.packet_type.value, p.sent_bytes) for p in packets], None
 
 
 def cf_impl(case):
